@@ -440,6 +440,8 @@ class Parser:
         if not ExpressionParser(self).expression():
             return False
         code_gen.add_instruction(OpCode.OP, Operator.NOT)
+        if dest is not OpCode.PUSH:
+            code_gen.pop(dest)
         return True
 
     def _rvalue_expr(self, dest, code_gen):
